@@ -288,7 +288,10 @@ def make_rt(tmp):
             raise AssertFail(msg)
     rt = ReferenceTest(afn)
     rt.set_defaults(verbose=False)
+    # (everything a failing assertion writes goes under the check's own work directory, not the system's /tmp)
     rt.tmp_dir = tmp
+    rt.pandas.tmp_dir = tmp
+    rt.files.tmp_dir = tmp
     return rt
 
 
